@@ -122,4 +122,35 @@ C06_SCORE_CHUNK = dict(
     ignore=["logger.info(__a)"],
 )
 
-ALL = [C16_FILTER, C17_SAMPLE, C06_SELECT, C06_SCORE_CHUNK]
+# ---- scoring/main.py select_next_plate once more, in the C16 vocabulary (Model/Policy.v): a Plate object is (id, sample ids),
+# `observed` its is_observed attribute, the ScoresHolder the list of its (plate id, score key) slots, the policy object
+# KPerSamplePlatePolicy(k) is k and its method the C16 model function (itself linked to the source by C16_model_is_source)
+C16_SELECT = dict(
+    file="src/batchie/scoring/main.py", func="select_next_plate",
+    out="SrcScoringPolicy.v", imports="Model.Policy", name="src_select_next_plate_k",
+    pyparams=["scores", "screen", "policy", "batch_plate_ids", "rng"],
+    params=[("observed", "plate -> bool"), ("scores", "list (Z * Z)"), ("screen", "list plate"), ("policy", "opt Z"),
+            ("batch_plate_ids", "opt list Z"), ("rng", "opt rng_t")],
+    returns="opt plate",
+    vars={
+        "rng": "rng_t", "batch_plate_ids": "list Z",       # narrowed by the `if x is None: x = default` idiom
+        "plate": "plate", "batch_plates": "list plate", "unobserved_plates_not_already_selected": "list plate",
+        "eligible_plates": "list plate", "eligible_plate_ids": "list Z", "best_plate_id": "Z", "best_plate": "plate",
+        "best_plate_name": "Z",
+    },
+    prims=[
+        ("np.random.default_rng()", "fresh_rng", "rng_t"),
+        ("screen.plates", "screen'", "list plate"),
+        ("__p.plate_id", "plate_id {p}", "Z", {"p": "plate"}),
+        ("__p.is_observed", "observed {p}", "bool", {"p": "plate"}),
+        ("sorted(__l, key=lambda p: p.plate_id)", "sort_by_id {l}", "list plate", {"l": "list plate"}),   # stable
+        ("__f.filter_eligible_plates(batch_plates=__b, unobserved_plates=__u, rng=__r)", "!filter_eligible {f} {b} {u}", "list plate",
+         {"f": "Z", "b": "list plate", "u": "list plate", "r": "rng_t"}),
+        ("scores.plate_id_with_minimum_score(__e)", "!min_score_id scores' {e}", "Z", {"e": "list Z"}),
+        ("screen.get_plate(__i)", "get_plate screen' {i}", "plate", {"i": "Z"}),
+        ("__p.plate_name", "!plate_name {p}", "Z", {"p": "plate"}),
+    ],
+    ignore=["logger.warning(__a)", "logger.info(__a)"],
+)
+
+ALL = [C16_FILTER, C17_SAMPLE, C06_SELECT, C06_SCORE_CHUNK, C16_SELECT]
